@@ -380,9 +380,22 @@ func (Engine) execC16(sc *kernel.Scenario, res *kernel.Result, trace bool) {
 				}
 				idx = idx[:c]
 			}
+			// each selected Write call fails in one of three ways (by the fault's
+			// seed): nothing written; a part written and io.ErrShortWrite, once or
+			// on two calls in a row; a part written and a timeout
+			modes := kernel.NewRand(kernel.Derive(uint64(f.Int("seed")), "write-fault-modes"))
 			for _, k := range idx {
 				l2 := NewLink()
-				l2.A.FailWrite(k)
+				switch m := modes.Intn(5); m {
+				case 0, 1:
+					l2.A.FailWrite(k)
+				case 2, 3:
+					l2.A.ShortWrites(k, m-1, io.ErrShortWrite)
+					res.Count("fault.short-write", 1)
+				default:
+					l2.A.ShortWrites(k, 1, ErrInjectedTimeout)
+					res.Count("fault.partial-write-then-timeout", 1)
+				}
 				c2 := wirenet.NewIoConn(l2.A, serializers[ser])
 				var okIdx []int
 				sawErr := false
@@ -396,8 +409,14 @@ func (Engine) execC16(sc *kernel.Scenario, res *kernel.Result, trace bool) {
 				res.Count("fault.write-error", 1)
 				res.Evals++
 				d2, w2 := l2.A.Sent()
+				if !sawErr && bytes.Equal(d2, data) {
+					// (a Send may absorb a short write by writing the rest itself: fine
+					// if the stream is then exactly the fault-free one)
+					res.Count("probe.short-write-absorbed", 1)
+					continue
+				}
 				if !sawErr {
-					res.Fail(fi, "C16.write-error-swallowed@"+serNames[ser], "write %d of %d failed, yet every Send reported success", k, total)
+					res.Fail(fi, "C16.write-error-swallowed@"+serNames[ser], "write %d of %d failed or was short, yet every Send reported success and the stream differs from the fault-free one", k, total)
 					return
 				}
 				got, _, at, err, _ := recvAll(ser, d2, w2, Schedule{}, len(okIdx))
